@@ -383,6 +383,7 @@ type ledgerWorld struct {
 	slashN    int
 	curDec    uint32  // decimals of the asset the current op is about
 	nstakers  []Actor // accounts holding native tokens that delegate the native asset
+	forced    []forcedOp // scripted next operations (directed sub-scenarios inside a random history)
 	lastSlash *slashEvent
 	huge      bool // extreme amounts (2^64..2^200); such histories never reach an epoch end (see C11 findings F-11f/g)
 	gDep      map[string]*big.Int
@@ -678,6 +679,27 @@ func (w *ledgerWorld) step(prev *ledgerSnap, kinds map[string]int) *ledgerSnap {
 		w.curDec = 6
 	}
 	native := len(w.nstakers) > 0 && r.Chance(1, 5)
+	var forcedAmt int64
+	forcedKind := -1
+	if len(w.forced) == 0 && len(w.assets) >= 2 && r.Chance(1, 40) {
+		// directed sub-scenario: one staker deposits and delegates TWO assets to the same operator and
+		// then declares it its own operator (association must move the shares of both pools)
+		fs, fo := w.stakers[r.Intn(len(w.stakers))], w.ops[r.Intn(len(w.ops))]
+		for ai2 := 0; ai2 < 2; ai2++ {
+			w.forced = append(w.forced, forcedOp{0, fs, ai2, fo, int64(1000 + r.Intn(100000))}, forcedOp{2, fs, ai2, fo, int64(1 + r.Intn(1000))})
+		}
+		w.forced = append(w.forced, forcedOp{5, fs, 0, fo, 0})
+		w.env.Outcome("scenario.multi-asset-association")
+	}
+	if len(w.forced) > 0 {
+		f := w.forced[0]
+		w.forced = w.forced[1:]
+		native = false
+		st, ai, op, forcedKind, forcedAmt = f.st, f.ai, f.op, f.kind, f.amt
+		asset, sid = c.AssetIDs[ai], StakerIDOf(c.LzID, st.Eth)
+		w.curDec = w.assets[ai].Decimals
+		lz, saddr, aaddr = c.LzID, st.Eth.Bytes(), w.assetAddr(ai)
+	}
 	if native {
 		useNative(w.nstakers[r.Intn(len(w.nstakers))])
 	}
@@ -709,9 +731,18 @@ func (w *ledgerWorld) step(prev *ledgerSnap, kinds map[string]int) *ledgerSnap {
 	if native && kind < 2 { // no deposit/withdraw of the native token: delegate instead
 		kind = 2
 	}
+	if kind == 8 && r.Chance(1, 3) { // associations are rare otherwise
+		kind = 5
+	}
+	if forcedKind >= 0 {
+		kind = forcedKind
+	}
 	switch kind {
 	case 0: // deposit
 		x := w.amount(nil)
+		if forcedAmt > 0 {
+			x = sdkmath.NewInt(forcedAmt)
+		}
 		err := c.CachedDo(func(ctx sdk.Context) error {
 			return c.App.AssetsKeeper.PerformDepositOrWithdraw(ctx, &assetskeeper.DepositWithdrawParams{
 				ClientChainLzID: c.LzID, Action: assetstypes.DepositLST, StakerAddress: st.Eth.Bytes(), AssetsAddress: w.assetAddr(ai), OpAmount: x})
@@ -729,6 +760,14 @@ func (w *ledgerWorld) step(prev *ledgerSnap, kinds map[string]int) *ledgerSnap {
 		})
 		finish("withdraw", fmt.Sprintf("ledger.withdraw %s %s %s", sid, asset, x), err, map[string]*big.Int{asset: new(big.Int).Neg(x.BigInt())})
 	case 2: // delegate
+		if forcedKind < 0 && !native && r.Chance(1, 3) { // to an operator this staker already delegates to (another asset, typically)
+			for _, k := range sortedKeys(prev.deleg) {
+				if strings.HasPrefix(k, sid+"/") && !strings.Contains(k, "/"+asset+"/") {
+					op = sdk.MustAccAddressFromBech32(strings.Split(k, "/")[2])
+					break
+				}
+			}
+		}
 		var near *big.Int
 		if row, ok := prev.stakers[sid+"/"+asset]; ok {
 			near = row.withdrawable
@@ -737,6 +776,9 @@ func (w *ledgerWorld) step(prev *ledgerSnap, kinds map[string]int) *ledgerSnap {
 			near = prev.bal[sid]
 		}
 		x := w.amount(near)
+		if forcedAmt > 0 {
+			x = sdkmath.NewInt(forcedAmt)
+		}
 		err := c.CachedDo(func(ctx sdk.Context) error {
 			return c.App.DelegationKeeper.DelegateTo(ctx, &delegationtypes.DelegationOrUndelegationParams{
 				ClientChainID: lz, AssetsAddress: aaddr, OperatorAddress: op, StakerAddress: saddr, OpAmount: x})
@@ -804,7 +846,26 @@ func (w *ledgerWorld) step(prev *ledgerSnap, kinds map[string]int) *ledgerSnap {
 			w.env.Violate("C03.accept", "undelegate-rejected-within-position", fmt.Sprintf("undelegation of %s within position %s rejected: %v", x, near, err), w.hist)
 		}
 	case 5: // associate: mostly a (staker, operator) pair that already has delegations - preferably in several assets
-		if ks := sortedKeys(prev.deleg); len(ks) > 0 && !native && r.Chance(3, 4) {
+		if ks := sortedKeys(prev.deleg); forcedKind < 0 && len(ks) > 0 && !native && r.Chance(3, 4) {
+			// pairs holding delegations in several assets first (the association loop visits each of them)
+			cnt := map[string]int{}
+			for _, k := range ks {
+				f := strings.Split(k, "/")
+				if _, assoc := prev.assoc[f[0]]; !assoc && prev.deleg[k].share.Sign() > 0 {
+					cnt[f[0]+"/"+f[2]]++
+				}
+			}
+			var multi []string
+			for _, k := range ks {
+				f := strings.Split(k, "/")
+				if cnt[f[0]+"/"+f[2]] >= 2 {
+					multi = append(multi, k)
+				}
+			}
+			if len(multi) > 0 {
+				ks = multi
+				w.env.Outcome("associate.multi-asset-candidate")
+			}
 			f := strings.Split(ks[r.Intn(len(ks))], "/")
 			for _, s2 := range w.stakers {
 				if StakerIDOf(c.LzID, s2.Eth) == f[0] {
@@ -1185,6 +1246,15 @@ func (w *ledgerWorld) directedNonceCollision() {
 		w.env.Violate("C03.index", "F-03a:nonce-collision-orphans-record",
 			"two accepted undelegations with one nonce in one block: the first record is no longer reachable from the pending-by-height index and will never be released", w.hist)
 	}
+}
+
+// forcedOp scripts one of the next operations of a history (kind as in step's switch)
+type forcedOp struct {
+	kind int
+	st   Actor
+	ai   int
+	op   sdk.AccAddress
+	amt  int64
 }
 
 type slashEvent struct {
